@@ -141,4 +141,18 @@ PROPS = {
         "not_covered": ["PROXY header parsing/validation itself (proxy-header crate: proxy_parse is uninterpreted)"],
         "assumptions": ["RateLimiter::enqueue is an uninterpreted function of the call history and the key (the limiter itself: C13)"],
     },
+    "C05": {
+        "units": ["U5", "U4"],
+        "level": "proof",
+        "witness": [(r".", "cipher")],
+        "sweep": ["cipher"],
+        "explanation": "CFB-8 is defined as a mathematical stream function over an uninterpreted AES block function; CipherStream::poll_write / poll_read are "
+                       "extracted (Pin erased, the per-chunk loop folded into the cfb8 crate's block contract) and verified for a transport whose write "
+                       "may return Pending, an error, or accept any prefix and whose read may deliver any number of bytes: what the transport accepted is "
+                       "exactly the encryption of the bytes reported written and the cipher register advanced over exactly those; reads decrypt exactly the "
+                       "newly delivered bytes. lemma_*_history_step / lemma_enc_compose turn the per-call contracts into the whole-history statement; "
+                       "create_ciphers keys both directions with key = IV = shared secret; apply_encryption (U4) installs them.",
+        "not_covered": ["that the cfb8/aes crates implement CFB-8/AES (their block contract is the definition, assumed)"],
+        "assumptions": ["Pin erased (all types Unpin, R10)", "block size of cfb8::Encryptor is 1 byte (BlockSizeUser)"],
+    },
 }
